@@ -224,7 +224,9 @@ def observe(gfa, pool, universe=()):
 
 def _guard(fn):
     """Run one call into gfapy; returns (result class, exception name, value)."""
-    signal.setitimer(signal.ITIMER_REAL, 10.0)
+    # watchdog on the CPU time of this process (a wall-clock timer fires spuriously when the
+    # machine is oversubscribed; a call that does not terminate burns CPU)
+    signal.setitimer(signal.ITIMER_VIRTUAL, 20.0)
     try:
         v = fn()
         return "ok", "", v
@@ -235,7 +237,7 @@ def _guard(fn):
     except BaseException as e:  # noqa
         return project.errclass(e), type(e).__name__, None
     finally:
-        signal.setitimer(signal.ITIMER_REAL, 0)
+        signal.setitimer(signal.ITIMER_VIRTUAL, 0)
 
 
 def _path(p):
@@ -249,7 +251,7 @@ def _universe(case):
 def run_c14(job, pool=None):
     """job = dict(id, ver, case, short).  Returns the trace record (with its pool)."""
     gfapy = _load_gfapy()
-    signal.signal(signal.SIGALRM, _alarm)
+    signal.signal(signal.SIGVTALRM, _alarm)
     case, ver = job["case"], job["ver"]
     text = gfa_text(case, ver)
     pool = pool or GPool()
@@ -591,7 +593,7 @@ def mc_multiply(nseg, maxlinks, lawlinks, name):
 def run_c15(job, pool=None):
     """job = dict(id, ver, case, arg = dict(seg (1-based index), k, policy, names), given)."""
     gfapy = _load_gfapy()
-    signal.signal(signal.SIGALRM, _alarm)
+    signal.signal(signal.SIGVTALRM, _alarm)
     case, ver, a = job["case"], job["ver"], job["arg"]
     text = gfa_text(case, ver)
     pool = pool or GPool()
